@@ -444,13 +444,14 @@ func (m *Memory) FindLatest(
 		var ret []*amhist.MemoryRecord
 
 	records:
-		for id := m.nextId.Load() - 1; id > 0; id-- {
+		for id := m.nextId.Load() - 1; id > 0 || older != nil; id-- {
 			if ctx.Err() != nil || m.Ctx.Err() != nil {
 				return nil
 			}
 
 			v := b.Get(itob(id))
-			if v == nil {
+			// no more records, unless the oldest one still awaits its pass
+			if v == nil && older == nil {
 				m.log("empty hit for %d", id)
 				break
 			}
